@@ -31,6 +31,15 @@ class FakeGate(Host):
         return f'Gate({self._label}, {self._gate_type}, {self._operands})'
 
 
+class _ContractType(Host):
+    var = 'CONTRACT'
+    name = 'CONTRACT'
+    is_symmetric = False
+
+
+_CONTRACT = _ContractType()
+
+
 class FakeBlock(Host):
     _repo_class_name = 'Block'
 
@@ -175,7 +184,22 @@ class FakeCircuit(Host):
         if label in _seen:
             raise AnalysisError('rewrite produced a cycle')
         vals = [self.evaluate(o, assignment, _seen + (label,)) for o in g.operands]
+        if getattr(g, 'fn', None) is not None:
+            return bool(g.fn(vals))  # contract gate: a callee replaced by its specification
         return semantics.value(g.gate_type.var, vals)
+
+    def add_contract_gate(self, label, operands, fn):
+        """A gate standing for a callee's contract (assume/guarantee folding)."""
+        if label in self._gates:
+            raise InterpRaise('CircuitGateAlreadyExistsError')
+        g = FakeGate(label, _CONTRACT, tuple(operands))
+        g.fn = fn
+        for o in operands:
+            if o not in self._gates:
+                raise InterpRaise('CircuitGateIsAbsentError')
+            self._gate_to_users[o].append(label)
+        self._gates[label] = g
+        return label
 
 
 def find_convertors(ck: Checker):
